@@ -16,3 +16,5 @@ INVARIANT DC04
 INVARIANT DC03
 INVARIANT DC07
 INVARIANT DC17
+INVARIANT DC08
+INVARIANT DC11
